@@ -79,5 +79,39 @@ template <class F> void guarded(F f) {
 	std::cout << out << "\n" << std::flush;
 }
 
+// run f in a forked child under a time limit; returns the child's string, or "@TIMEOUT" / "@CRASH"
+} // namespace vd
+#include <poll.h>
+#include <signal.h>
+#include <sys/wait.h>
+#include <unistd.h>
+namespace vd {
+template <class F> std::string forked(F f, int limit_ms) {
+	int fd[2]; if (pipe(fd) != 0) return "@CRASH";
+	std::cout.flush();
+	pid_t pid = fork();
+	if (pid < 0) { close(fd[0]); close(fd[1]); return "@CRASH"; }
+	if (pid == 0) {
+		close(fd[0]); std::string out;
+		try { out = f(); } catch (...) { out = "@EXC"; }
+		size_t off = 0; while (off < out.size()) { ssize_t w = write(fd[1], out.data() + off, out.size() - off); if (w <= 0) break; off += (size_t)w; }
+		_exit(0);
+	}
+	close(fd[1]);
+	std::string res; bool timeout = false;
+	for (;;) {
+		struct pollfd p; p.fd = fd[0]; p.events = POLLIN;
+		int r = poll(&p, 1, limit_ms);
+		if (r <= 0) { timeout = true; break; }
+		char buf[4096]; ssize_t k = read(fd[0], buf, sizeof buf);
+		if (k <= 0) break;
+		res.append(buf, (size_t)k);
+	}
+	if (timeout) kill(pid, SIGKILL);
+	close(fd[0]); int st = 0; waitpid(pid, &st, 0);
+	if (timeout) return "@TIMEOUT";
+	if (!WIFEXITED(st) || WEXITSTATUS(st) != 0) return "@CRASH";
+	return res;
+}
 } // namespace vd
 #endif
